@@ -171,6 +171,126 @@ def _short(v):
     return s if len(s) < 200 else s[:197] + "..."
 
 
+class OperatorSteps(Facet):
+    """The operators as the GP pipeline calls them: GenericMutationStep / GenericCrossoverStep applied
+    to a population of freshly created individuals, with a target size below, at or ABOVE the size
+    of the incoming population (a growing population, a step placed first in a custom pipeline) and
+    a probability that may be < 1. Every individual the mutation step yields must carry a genotype
+    at Hamming distance <= 1 from the genotype of SOME incoming individual; every individual the
+    crossover step yields must be an incoming individual or satisfy the crossover relation for some
+    ordered pair of incoming individuals."""
+
+    name = "operator_steps_on_populations"
+    reps = ("ge", "sge", "stack")
+
+    def budget(self, tier):
+        return (60, 4) if tier == "quick" else (500, 8)
+
+    def strategy(self, tier):
+        fl = Flags(dependent=False, user_mh=False, max_concrete=5)
+        return st.builds(
+            lambda c, step, n, extra, prob: {**c, "ops": [], "step": step, "n": n, "target": max(1, n + extra), "prob": prob},
+            world_cases(fl, reps=self.reps, deciders=("maxdepth",), max_ops=1, depth_extras=(1, 2, 3), with_map=False),
+            st.sampled_from(["mutation", "mutation", "crossover"]),
+            st.integers(1, 6),
+            st.integers(-3, 9),
+            st.sampled_from([1.0, 1.0, 0.5, 0.9]),
+        )
+
+    def run(self, case, rec):
+        w = World(case)
+        try:
+            self._run(case, rec, w)
+        finally:
+            w.cleanup()
+
+    def _run(self, case, rec, w):
+        from geneticengine.algorithms.gp.operators.crossover import GenericCrossoverStep
+        from geneticengine.algorithms.gp.operators.mutation import GenericMutationStep
+        from geneticengine.evaluation.sequential import SequentialEvaluator
+        from geneticengine.problems import SingleObjectiveProblem
+        from geneticengine.solutions.individual import Individual
+
+        rep = case["rep"]
+        if not w.productive():
+            rec.discard()
+            return
+        try:
+            w.build()
+            pop = [Individual(w.rep.create_genotype(w.random), w.rep) for _ in range(case["n"])]
+        except Exception:  # noqa: BLE001
+            rec.discard()
+            return
+        n, target = case["n"], case["target"]
+        if case["step"] == "crossover" and (n < 2 or target > n or target // 2 >= n):
+            # the crossover step pairs neighbours (j, j + 1): it is documented for populations at least as
+            # large as the target; smaller ones are outside its domain (IndexError)
+            target = max(1, min(target, n - 1))
+            if n < 2:
+                rec.discard()
+                return
+        before = [genes_view(rep, i.genotype) for i in pop]
+        step = GenericMutationStep(case["prob"]) if case["step"] == "mutation" else GenericCrossoverStep(case["prob"])
+        problem = SingleObjectiveProblem(lambda p: 0.0)
+        rec.label("step:" + case["step"], "target:" + ("above" if target > n else "at" if target == n else "below"), "rep:" + rep)
+        rec.sample({"spec": spec_str(case["spec"]), "rep": rep, "step": case["step"], "n": n, "target": target, "prob": case["prob"]}, limit=3)
+        try:
+            out = list(step.apply(problem, SequentialEvaluator(), w.rep, w.random, iter(list(pop)), target, 0))
+        except Exception as e:  # noqa: BLE001
+            rec.discard()
+            rec.label("discarded:" + type(e).__name__)
+            return
+        after = [genes_view(rep, i.genotype) for i in pop]
+        if after != before:
+            rec.fail(f"C06/step/{case['step']}/{rep}/incoming-individual-changed", f"the {case['step']} step changed the genes of an incoming individual (before {_short(before)}, after {_short(after)})")
+            return
+        changed = 0
+        for k, ind in enumerate(out):
+            c = genes_view(rep, ind.genotype)
+            if case["step"] == "mutation":
+                hs = [hamming(b, c) for b in before]
+                best = min((h for h in hs if h is not None), default=None)
+                if best is None or best > 1:
+                    rec.fail(
+                        f"C06/step/mutation/{rep}/offspring-not-a-point-mutant-of-any-incoming-individual",
+                        f"GenericMutationStep({case['prob']}) on {n} individuals with target_size {target}: offspring #{k} differs from the closest incoming individual in {best} genes (distances {hs}); grammar {spec_str(case['spec'])}",
+                    )
+                    return
+                changed += 1 if best else 0
+            else:
+                if c in before:
+                    continue
+                ok = False
+                for p1 in before:
+                    for p2 in before:
+                        probe = _Probe()
+                        LinearStructured.judge_child(probe, rep, c, p1, p1, p2, case)
+                        if not probe.failed:
+                            ok = True
+                            break
+                    if ok:
+                        break
+                if not ok:
+                    rec.fail(
+                        f"C06/step/crossover/{rep}/offspring-not-a-recombination-of-any-incoming-pair",
+                        f"GenericCrossoverStep({case['prob']}) on {n} individuals with target_size {target}: offspring #{k} ({_short(c)}) is not a locus-wise recombination of any two incoming individuals; grammar {spec_str(case['spec'])}",
+                    )
+                    return
+                changed += 1
+        if changed:
+            rec.nontrivial((rep, case["step"], n, target, _short(before)))
+
+
+class _Probe:
+    """Collects judge_child verdicts without reporting them."""
+
+    def __init__(self):
+        self.failed = False
+
+    def fail(self, *a, **k):
+        self.failed = True
+
+
 class DsgeCrossoverChains(LinearStructured):
     """dSGE genotypes hold genes only for the symbols their mapping read, so parents differ in their
     key sets; children are mapped (which extends them in place) and crossed over again, several
@@ -419,4 +539,4 @@ class TreeCrossoverConcreteStart(TreeCrossover):
         return st.builds(lambda c, x: {**c, "ops": [["create"], ["create"], ["create"]] + x}, base, xs)
 
 
-FACETS = [LinearStructured(), DsgeCrossoverChains(), GECrossoverAllCuts(), TreeCrossover(), TreeCrossoverConcreteStart()]
+FACETS = [LinearStructured(), DsgeCrossoverChains(), GECrossoverAllCuts(), TreeCrossover(), TreeCrossoverConcreteStart(), OperatorSteps()]
